@@ -567,7 +567,7 @@ func init() {
 	register("c17.abscapture.m", "C17", extGenMarshal(extAbsCaptureCodec))
 	register("c17.abscapture.u", "C17", extGenUnmarshal(extAbsCaptureCodec))
 
-	// c18.capture <t> => ok <Timestamp> <CaptureTime().UnixNano()>
+	// c18.capture <t> => ok <Timestamp> <CaptureTime().UnixNano()> <the same, asked again>
 	register("c18.capture", "C18", func(x *Ctx) {
 		one := func(mk func(c *Case) int64) {
 			x.Case(func(c *Case) {
@@ -578,16 +578,17 @@ func init() {
 					c.Trivial()
 				}
 				var ts uint64
-				var back int64
+				var back, again int64
 				if try(func() {
 					e := rtp.NewAbsCaptureTimeExtension(time.Unix(0, t))
 					ts = e.Timestamp
 					back = e.CaptureTime().UnixNano()
+					again = e.CaptureTime().UnixNano() // a read: the second answer is the first
 				}) {
 					c.O.Panic()
 					return
 				}
-				c.O.Ok().U64(ts).I64(back)
+				c.O.Ok().U64(ts).I64(back).I64(again)
 				if t >= 0 && t < extEraEndNs {
 					if back == t {
 						c.Tag("exact")
@@ -642,7 +643,8 @@ func init() {
 		}
 	})
 
-	// c18.offset <t> <d> <holder> => ok <Timestamp> <raw offset> <duration> <opt duration via the wire> <opt holder's duration afterwards>
+	// c18.offset <t> <d> <holder> <hist> => ok <Timestamp> <raw offset> <duration> <opt duration via the wire> <opt holder's duration afterwards>
+	//                                        <duration, asked again> <duration, asked of a struct copy> <opt duration via the wire, asked again>
 	//   holder = none: the wire form is decoded by a zero-value receiver;
 	//   holder = some <how> <d2>: somebody holds an extension h2 with offset d2 and the receiver that decodes
 	//   the wire form shares its history — how=0: the receiver is a struct copy of
@@ -665,6 +667,15 @@ func init() {
 				} else {
 					c.I.None()
 				}
+				// hist = 1: BEFORE the extension under test is built, the caller has built and decoded other
+				// extensions (with the same offset and with offset 0) and re-based their offsets by hand,
+				// writing through the exported pointer field `*ext.EstimatedCaptureClockOffset += k`
+				hist := 0
+				if c.R.Chance(1, 2) {
+					hist = 1
+					c.Tag("earlier-results-edited-through-their-pointers")
+				}
+				c.I.Nat(hist)
 				if d <= -extMaxOffset || d >= extMaxOffset {
 					c.Tag("offset-out-of-range")
 					c.Trivial()
@@ -674,13 +685,40 @@ func init() {
 					c.Tag("non-negative")
 				}
 				var ts uint64
-				var raw, back int64
-				var wire, held *time.Duration
+				var raw, back, again, againCopy int64
+				var wire, held, wireAgain *time.Duration
+				var undo []func()
+				defer func() { // what was written is put back (no-op for the case itself)
+					for i := len(undo) - 1; i >= 0; i-- {
+						undo[i]()
+					}
+				}()
 				if try(func() {
+					if hist == 1 {
+						for _, d0 := range []int64{d, 0} {
+							e0 := rtp.NewAbsCaptureTimeExtensionWithCaptureClockOffset(time.Unix(0, t), time.Duration(d0))
+							var r0 rtp.AbsCaptureTimeExtension
+							if b0, err := e0.Marshal(); err == nil {
+								_ = r0.Unmarshal(b0)
+							}
+							for _, p := range []*int64{e0.EstimatedCaptureClockOffset, r0.EstimatedCaptureClockOffset} {
+								if p != nil {
+									p, old := p, *p
+									*p += int64(c.R.U64()>>uint(c.R.Intn(60))) | 1
+									undo = append(undo, func() { *p = old })
+								}
+							}
+						}
+					}
 					e := rtp.NewAbsCaptureTimeExtensionWithCaptureClockOffset(time.Unix(0, t), time.Duration(d))
 					ts = e.Timestamp
 					raw = *e.EstimatedCaptureClockOffset
 					back = int64(*e.EstimatedCaptureClockOffsetDuration())
+					// the accessor is a read: asked again, on the same extension and on a struct copy of it,
+					// it gives the same answer
+					again = int64(*e.EstimatedCaptureClockOffsetDuration())
+					ec := *e
+					againCopy = int64(*ec.EstimatedCaptureClockOffsetDuration())
 					b, err := e.Marshal()
 					if err != nil {
 						panic(err)
@@ -705,6 +743,7 @@ func init() {
 						panic(err)
 					}
 					wire = r.EstimatedCaptureClockOffsetDuration()
+					wireAgain = r.EstimatedCaptureClockOffsetDuration()
 					if how >= 0 {
 						held = h2.EstimatedCaptureClockOffsetDuration()
 					}
@@ -713,13 +752,17 @@ func init() {
 					return
 				}
 				c.O.Ok().U64(ts).I64(raw).I64(back)
-				for _, p := range []*time.Duration{wire, held} {
+				opt := func(p *time.Duration) {
 					if p == nil {
 						c.O.None()
 					} else {
 						c.O.Some().I64(int64(*p))
 					}
 				}
+				opt(wire)
+				opt(held)
+				c.O.I64(again).I64(againCopy)
+				opt(wireAgain)
 			})
 		}
 		edges := []int64{0, 1, 2, 3, 4, 5, extNsPerS - 1, extNsPerS, extNsPerS + 1, 1250000000, 250000000, 232830643, 232830644,
